@@ -9,6 +9,18 @@ import verif
 
 ck = verif.Check("C09")
 rng = ck.rng
+# the three harnesses are compiled (from /repo's working tree, into ck.scratch) in background threads while Coq re-checks the
+# theorems and the cases are generated: at most three compiler jobs next to the Coq build
+import threading
+_built = {}
+def _bg_build(name, src, flags=None):
+    _built[name] = ck.build_cpp(name, [src], flags=flags)
+_O0 = ["-std=c++17", "-O0", "-g", "-fsanitize=address,undefined", "-fno-sanitize-recover=all", "-fno-omit-frame-pointer"]
+_threads = [threading.Thread(target=_bg_build, args=("c09_harness", "harness/C09/lt_harness.cpp", None if ck.thorough() else _O0)),
+            threading.Thread(target=_bg_build, args=("c09_big_k", "harness/C09/big_k.cpp")),
+            threading.Thread(target=_bg_build, args=("c09_large_k", "harness/C09/large_k.cpp"))]
+for _t in _threads:
+    _t.start()
 pr = ck.prove()
 
 VARIANTS = [p + g + s for p in "CP" for g in "GU" for s in "SN"]
@@ -126,7 +138,8 @@ def flavour(rng, cls):
     store = rng.choice(["p", "l", "l"] if cls[0] == "P" else ["p", "l", "t", "t"])
     # extra: bit 1 = init() twice in a row, bit 2 = guarded: three more delete_min_insert(nullptr, true) after the last key
     # bit 4 = the comparator is handed to the constructor as a temporary that dies (state poisoned) before the tree is used
-    extra = rng.choice([0, 0, 1, 2, 3]) + (4 if rng.chance(1, 2) else 0)
+    # bit 8 = reuse: the same tree object is used for a second run (every player registered again with the next player's sequence)
+    extra = rng.choice([0, 0, 1, 2, 3]) + (4 if rng.chance(1, 2) else 0) + (8 if rng.chance(1, 4) else 0)
     return "%s:%s:%s:%s:%s:%d" % (cls, elem, cmp, via, store, extra)
 
 def add_flavours(rng, cases, start):
@@ -254,7 +267,7 @@ else:
         exhaustive_general(9, 2, 1, cases, hist)
     nreg = regimes(rng, cases, hist)
     nexh = len(cases) - ncorpus
-    NR = 150000 if ck.thorough() else 15000
+    NR = 150000 if ck.thorough() else 10000
     for _ in range(NR):
         cases.append(random_case(rng))
     add_flavours(rng, cases, ncorpus)
@@ -287,10 +300,13 @@ def is_nontrivial(c):
 def canon(v, line):
     """what the property fixes: for the guarded classes the last report (made when no live player remains)
     is left open by the property"""
-    t = line.split()
-    if v[1] == "G" and t:
-        t = t[:-1]
-    return " ".join(t)
+    parts = []
+    for part in line.split("|"):
+        t = part.split()
+        if v[1] == "G" and t:
+            t = t[:-1]
+        parts.append(" ".join(t))
+    return " | ".join(parts)
 
 
 traits = "?"
@@ -335,6 +351,8 @@ def api_surface():
                    "per class non-ascending": {v: g(v + "/order=descending") + g(v + "/order=shuffled") for v in sorted(stats)}}},
         {"api": "a player re-registered (insert_start twice; guarded classes: first as exhausted, then with its key)", "called": g("re-registration/CG") + g("re-registration/PG") > 0,
          "cases": {t: g("re-registration/" + t) for t in ("CG", "PG", "CU", "PU", "CV", "PV")}},
+        {"api": "the same tree object used twice: complete run, then insert_start for every player again (other keys, other exhausted players), init(), second run",
+         "called": g("reuse/CG") > 0, "cases": {t: g("reuse/" + t) for t in ("CG", "PG", "CU", "PU", "CV", "PV")}},
         {"api": "init() called twice in a row (crash / result unchanged)", "called": g("init() twice") > 0, "cases": g("init() twice")},
         {"api": "guarded classes: delete_min_insert(nullptr, true) + min_source() three more times after the last key (no live player; crash check only)",
          "called": g("overrun: delete_min_insert(nullptr,true) after the last key") > 0, "cases": g("overrun: delete_min_insert(nullptr,true) after the last key")},
@@ -367,7 +385,7 @@ BIGK = [(0, "LoserTreePointer<false,int>", "2^30+1"), (1, "LoserTreeCopy<true,in
         (6, "LoserTreePointerUnguarded<false,int>", "2^31+1"), (7, "LoserTreeCopyUnguarded<true,int>", "2^31+1")]
 bigk_report = {}
 def probe_big_k():
-    exe2, log2 = ck.build_cpp("c09_big_k", ["harness/C09/big_k.cpp"])
+    exe2, log2 = _built["c09_big_k"]
     if exe2 is None:
         ck.violation("the > 2^30 players witness harness does not compile against /repo",
                      {"correspondence": "harness/C09/big_k.cpp", "log": log2[-1500:]}, no_input=True)
@@ -396,10 +414,49 @@ def probe_big_k():
                      {"case": "tlx::LoserTreePointer<false,int> lt((1u << 30) + 1);  (harness/C09/big_k.cpp <witness 0..7>)",
                       "witnesses": dict(bigk_report)}, key=KF_KEY)
 
+
+# ---------------------------------------------------------------- large numbers of players, and round_up_to_power_of_two
+# k in {65536, 65537, 70000, 131073}: the extracted model (list arrays) is too slow there, so harness/C09/large_k.cpp judges every
+# reported winner directly against the property (live, holds a minimum, stable: smallest index).  It also prints
+# round_up_to_power_of_two(k) around every power of two up to 2^31, compared here with the model's definition 2^ceil(log2 k).
+largek_report = {"histories": 0, "rup2_values_compared": 0}
+def probe_large_k():
+    global found
+    exe3, log3 = _built["c09_large_k"]
+    if exe3 is None:
+        ck.violation("the large-k harness does not compile against /repo", {"correspondence": "harness/C09/large_k.cpp", "log": log3[-1500:]}, no_input=True)
+        return
+    rc, out = verif.sh([exe3], timeout=600)
+    bad_rup = []
+    for line in out.splitlines():
+        if line.startswith("rup2 "):
+            _, x, y = line.split()
+            x = int(x); y = int(y)
+            largek_report["rup2_values_compared"] += 1
+            if y != 1 << (x - 1).bit_length():
+                bad_rup.append((x, y, 1 << (x - 1).bit_length()))
+        elif ": " in line and " k=" in line:
+            largek_report["histories"] += 1
+            if not line.endswith(": ok"):
+                found = True
+                ck.violation("large number of players: " + line[:200], {"case": "harness/C09/large_k.cpp: " + line.split(":")[0], "impl": line})
+    if rc != 0:
+        found = True
+        ck.violation("a loser tree crashes (ASan/UBSan/assert) with a large number of players",
+                     {"case": "harness/C09/large_k.cpp (k in 65536, 65537, 70000, 131073)", "log_tail": out[-2000:]})
+    if bad_rup:
+        x, y, z = bad_rup[0]
+        ck.violation("k_ = round_up_to_power_of_two(k) differs from the model's 2^ceil(log2 k): round_up_to_power_of_two(%d) = %d, model %d (%d values differ)"
+                     % (x, y, z, len(bad_rup)),
+                     {"correspondence": "coq/C09/LoserTree.v round_up_pow2 vs tlx::round_up_to_power_of_two(unsigned)", "first_disagreeing_case": "k = %d" % x,
+                      "all": bad_rup[:20]}, no_input=not found)
+    largek_report["judge"] = ("direct check of the property in the harness (live player, minimum, smallest index for the stable classes); "
+                              "the extracted model is not run at these k")
+
 found = False
-exe, log = ck.build_cpp("c09_harness", ["harness/C09/lt_harness.cpp"],
-                        flags=None if ck.thorough() else ["-std=c++17", "-O0", "-g", "-fsanitize=address,undefined",
-                                                           "-fno-sanitize-recover=all", "-fno-omit-frame-pointer"])
+for _t in _threads:
+    _t.join()
+exe, log = _built["c09_harness"]
 drv, dlog = ck.ocaml_driver("C09")
 if exe is not None:
     traits = verif.sh([exe, "--traits"], timeout=30)[1].strip()
@@ -452,6 +509,7 @@ else:
                 if int(fl[5]) & 4 and fl[2] != "df":
                     fstats["temporary comparator/" + v[:2]] = fstats.get("temporary comparator/" + v[:2], 0) + 1
                     if fl[2].startswith("rk"): fstats["temporary ByRank comparator/" + v[:2]] = fstats.get("temporary ByRank comparator/" + v[:2], 0) + 1
+                if int(fl[5]) & 8: fstats["reuse/" + v[:2]] = fstats.get("reuse/" + v[:2], 0) + 1
                 if int(fl[5]) & 1: fstats["init() twice"] = fstats.get("init() twice", 0) + 1
                 if int(fl[5]) & 2 and v[1] == "G": fstats["overrun: delete_min_insert(nullptr,true) after the last key"] = fstats.get("overrun: delete_min_insert(nullptr,true) after the last key", 0) + 1
                 for tag in (fl[1], "cmp=" + fl[2], "via=" + fl[3], v[:2] + "/" + fl[1], v[:2] + "/cmp=" + fl[2],
@@ -528,6 +586,7 @@ else:
                 samples.append({"case": cases[i], "impl": impl[i], "model_and_checker": model[i]})
 
 probe_big_k()
+probe_large_k()
 
 if pr is not None and not pr["ok"]:
     ck.proof_broken(found)
@@ -545,6 +604,7 @@ ck.finish({
                            "exhaustive_blocks": sorted(hist.keys()), "corpus": ncorpus},
     "exhaustive": False,
     "api_surface": api_surface(),
+    "large_k": largek_report,
     "known_finding_players_above_2^30": {
         "key": KF_KEY,
         "text": "Source = uint32_t: the constructors compute the node array size 2 * k_ and k_ = round_up_to_power_of_two(k) in 32-bit "
